@@ -329,7 +329,14 @@ def main():
         if r["twin"]:
             if r["verdict"] == "counterexample":
                 if r["cex"] and len(samples) < 12:
-                    samples.append({"harness": r["harness"], "part": r["part"], "reaching_input": r["cex"]["text"]})
+                    smp = {"harness": r["harness"], "part": r["part"], "reaching_input": r["cex"]["text"]}
+                    if r["cex"]["args"] is not None:
+                        # what that input looks like: replay the (non-twin) harness natively and keep what it recorded
+                        _f, info = native_replay(r["module"], r["harness"], r["part"], r["cex"]["args"], r["cex"]["kwargs"], tier)
+                        recs = [{k: (v if not isinstance(v, str) else v[:600]) for k, v in n.items() if k != "_sample"} for n in (info.get("notes") or []) if n.get("_sample")]
+                        if recs:
+                            smp["case"] = recs[0]
+                    samples.append(smp)
             else:
                 errors.append("vacuity twin of %s not refuted (%s %s)" % (key, r["verdict"], r["detail"][:200]))
             continue
